@@ -171,6 +171,36 @@ def check_core_drop(ctx, fb, rd):
                        'recovery callbacks see StopError, the chain completes)', 'instantiation: ' + f.full[:300])
 
 
+def check_drop_stop(ctx, fb, rd):
+    """every other result-bearing job (PromiseCore, coroutine PromiseType, ReadyCore = MakeTask head) stores StopTag on
+    EVERY path of its Drop(): a dropped job delivers StopError downstream whatever it held before"""
+    n = 0
+    for f in sorted(fb.fn.values(), key=lambda f: f.full):
+        if f.n != 'Drop' or 'virtual' not in f.flags or f.cfg is None or f.clsq == 'yaclib::detail::Core':
+            continue
+        if 'yaclib::detail::BaseCore' not in fb.all_bases(f.cls):
+            continue  # Strand, UniqueJob, Job: no result to deliver
+        n += 1
+        key = 'R-ROUTE.drop %s::Drop' % f.clsq.split('::')[-1]
+        ctx.instance(rd, key + ' :: ' + f.cls[:140], None)
+
+        def is_stop(b, i, e):
+            if not isinstance(e, int):
+                return False
+            m = f.nodes[e]
+            if m.get('cn', '').split('::')[-1] not in ('Store', 'CallImpl', 'Done'):
+                return False
+            return any('yaclib::StopTag' in f.nodes[d].get('t', '') for a in m.get('args', [])
+                       for d in f.descendants(a))
+
+        w = f.cfg.reaches_exit_without((f.cfg.entry, -1), is_stop)
+        if w is not None:
+            ctx.report(rd, key, f.where, 'a path through Drop() does not store StopTag: a dropped job must deliver '
+                       'StopError downstream whatever it held (value callbacks are skipped, the chain is cancelled)',
+                       'instantiation: %s\npath: %s' % (f.full[:300], f.cfg.describe_path(w)))
+    return n
+
+
 def check_awaiters(ctx, fb, ra):
     cands = []
     for r in fb.records.values():
@@ -238,6 +268,8 @@ def run(ctx):
         lib_exec.check_dequeue(ctx, fb, rl, deq)
         check_core_routing(ctx, fb, rr)
         check_core_drop(ctx, fb, rd)
+        if check_drop_stop(ctx, fb, rd) < (3 if cfg != 'K17' else 2):
+            ctx.broken('Drop() of PromiseCore / PromiseType / ReadyCore not found in %s' % cfg)
         if cfg != 'K17':
             if check_awaiters(ctx, fb, ra) < 3:
                 ctx.broken('executor-naming awaiters not found')
